@@ -173,6 +173,9 @@ def main():
             if rt == "float32" and c["kind"] == "ns3d" and (c["width"] > 2 or c["filter"] not in (None, ("multiplicative", 2))):
                 continue
             chk.add(flow_step, real_t=rt, cfg=c)
+    if chk.quick:
+        chk.add(flow_step, real_t="float32", cfg=dict(kind="ns2d", shape=(6, 7), forcing=True, free_stream=True, width=2))
+        chk.add(flow_step, real_t="float32", cfg=dict(kind="passive", shape=(5, 6, 5), field_type="vector"))
     chk.bounds = [f"{len(cfgs)} configurations ({'pairwise-covering subset' if chk.quick else 'full product forcing x free stream x width 0..4 (2D); x filter(7) x solver(2) (3D); passive scalar/vector'})",
                   "grids: 2D (6,7) for widths <= 2, (9,10) for widths 3-4; 3D (4,4,5) for widths <= 2, (8,8,9) with the Poisson stage cut out for widths 3-4; passive (6,7), (5,6,7), (5,6,5)",
                   f"precisions {rts}; tolerances {TOL} (absolute, cut variables in [-1,1]); all field values, dt, nu, rho > 0, free stream, clock and every scratch buffer symbolic"]
